@@ -90,6 +90,12 @@ def paths(cvxopt, PR, pr, qp):
                 out.append(('conelp refinement=%d' % o2['refinement'], lambda c=c, G=G, h=h, A=A, b=b, o2=o2: quiet(solvers.conelp, c, G, h, dims, A, b, options=o2)))
         Pm = P if P is not None else (spmatrix([], [], [], (pr.n, pr.n)) if sparse else matrix(0.0, (pr.n, pr.n)))
         out.append(('coneqp' + tag, lambda c=c, G=G, h=h, A=A, b=b, Pm=Pm: quiet(solvers.coneqp, Pm, c, G, h, dims, A, b, options=o)))
+        if P is not None and not sparse:
+            # only the lower triangle of P is documented to be read: the same problem with the strict upper triangle cleared (default KKT solver)
+            Pl = +P
+            for jj in range(pr.n):
+                for ii in range(jj): Pl[ii, jj] = 0.0
+            out.append(('coneqp lower-triangle-P', lambda c=c, G=G, h=h, A=A, b=b, Pl=Pl: quiet(solvers.coneqp, Pl, c, G, h, dims, A, b, options=o)))
         if sparse:
             o3 = {'show_progress': False, 'refinement': 2 + (len(pr.c) % 2)}
             out.append(('coneqp refinement=%d' % o3['refinement'], lambda c=c, G=G, h=h, A=A, b=b, Pm=Pm, o3=o3: quiet(solvers.coneqp, Pm, c, G, h, dims, A, b, options=o3)))
